@@ -12,7 +12,7 @@ git -C "$wt" apply "$dir/patch.diff" || { echo "PATCH DOES NOT APPLY"; exit 3; }
 echo "== demo on changed tree"; PYTHONPATH="$wt" PYTHONHASHSEED=0 timeout 300 /venv/bin/python "$dir/demo.py" >/tmp/seed_demo1.log 2>&1; echo "exit $?"; tail -3 /tmp/seed_demo1.log
 if [ -z "$notest" ]; then
   echo "== test-suite on changed tree"
-  (cd "$wt" && PYTHONPATH="$wt" timeout 1500 /venv/bin/python -m pytest -q -p no:cacheprovider -n 10 --timeout=900 2>&1 | grep -E "^(FAILED|ERROR)|passed|failed" | tail -8)
+  (cd "$wt" && OPENBLAS_NUM_THREADS=1 OMP_NUM_THREADS=1 PYTHONPATH="$wt" timeout 1500 /venv/bin/python -m pytest -q -p no:cacheprovider -n 10 --timeout=900 2>&1 | grep -E "^(FAILED|ERROR)|passed|failed" | tail -8)
 fi
 echo "== ./check $prop on changed tree"
 cp /verif/evidence/$prop.json /tmp/seed_evidence_$$.json 2>/dev/null
